@@ -12,6 +12,7 @@ import (
 
 	"github.com/oxia-db/oxia/server/kv"
 
+	"verif/lib/fsnap"
 	"verif/lib/lfsm"
 	"verif/lib/oxh"
 	"verif/lib/sched"
@@ -27,7 +28,10 @@ func main() {
 		"resent-entry-differs": true, "append-gap": true, "snapshot-with-wrong-term": true, "snapshot-unusable": true, "follower-not-caught-up": true,
 		"follower-log-diverges": true, "become-leader-stuck": true, "become-leader-failed": true, "harness-setup": true, "panic": true}
 	su := sched.Suite{Property: "C03", Stage2: os.Getenv("VERIF_STAGE2") != "",
-		Scenarios: func(tier string) []sched.Scenario { return lfsm.SchedScenarios(tier, keep) },
+		// the follower side first (cheap): what it acknowledges is covered by a completed flush of its log
+		Scenarios: func(tier string) []sched.Scenario {
+			return append(fsnap.AckDurabilityScenarios(tier), lfsm.SchedScenarios(tier, keep)...)
+		},
 		Budget: func(tier string) time.Duration {
 			if tier == "thorough" {
 				return 20 * time.Minute
